@@ -65,7 +65,7 @@ CHECKS = {
         "digits) with L one hex digit, the format-4 block is (4,L,PIN,A..,random), rebuilding returns the PIN, and the encrypted forms decrypt to the PIN — for any "
         "cipher with D(E(x))=x (C13_encrypted_roundtrip) and, with nothing assumed, for the Triple DES and the AES of the model (C13_tdes_iso0, C13_tdes_iso4, C13_aes_iso4) (Props/C13.lean). Tied to /repo by differential "
         "execution over all PIN x PAN lengths with digit sweeps, supplied/absent fills and 2-/3-key TDES, AES-128/192/256 "
-        "keys; Triple DES ciphertexts checked against the Lean model and a from-scratch DES reference, AES ciphertexts against the Lean model (Model/Aes.lean) and a direct call of `cryptography`. In addition a SOURCE TIE: harness/pytrans.py translates the current Python text of Iso0PinBlock.to_bytes / from_bytes and Iso4PinBlock.to_bytes / from_bytes into Lean (Gen/Src.lean) on every run and lean/Cardutil/SrcTie/Pin.lean proves, for all inputs, that the translation equals the model (and restates the property for the translated code: C13_source_iso0, C13_source_iso4); when the source changes so that this no longer checks, the check runs its thorough generators (time-boxed) before answering (the correspondence remains the deciding tie).",
+        "keys; Triple DES ciphertexts checked against the Lean model and a from-scratch DES reference, AES ciphertexts against the Lean model (Model/Aes.lean) and a direct call of `cryptography`. In addition a SOURCE TIE: harness/pytrans.py translates the current Python text of Iso0PinBlock.to_bytes / from_bytes and Iso4PinBlock.to_bytes / from_bytes into Lean (Gen/Src.lean) on every run and lean/Cardutil/SrcTie/Pin.lean proves, for all inputs, that the translation equals the model (and restates the property for the translated code: C13_source_iso0, C13_source_iso4); the static encrypt / decrypt methods of the two encryption mix-ins are translated with the cipher call as an external function and lean/Cardutil/SrcTie/Keys.lean proves C13_source_tdes_roundtrip and C13_source_aes_roundtrip with the model's ciphers behind the calls; when the source changes so that this no longer checks, the check runs its thorough generators (time-boxed) before answering (the correspondence remains the deciding tie).",
         "Trusted: Lean kernel; standard axioms; hand-written model validated by correspondence; refdes.py (FIPS KAT self-test); "
         "AES from `cryptography`; for Triple DES D(E(x))=x is a theorem about Model/Des.lean (Lemmas/Des.lean tdesEcb_dec_enc; C13_tdes_iso0, C13_tdes_iso4) and the model's ciphertexts are compared with the implementation's on every run; for AES likewise: Model/Aes.lean is FIPS 197 (known answers for 128/192/256-bit keys as #guards), Lemmas/Aes.lean proves invCipher_cipher for every state and any round keys (byte-level facts by decide +kernel over all cases), C13_aes_iso4 instantiates the property, and the driver's pin.enc4aes is compared with `cryptography`'s AES on every run; fill freshness observed, not proved.",
         "DESIGN.md §8 C13"),
